@@ -54,10 +54,19 @@ EvData(b)    == [E0 EXCEPT !.m = "OnArrayData", !.bytes = b]
 (* Generation filters (aspect isolation, DESIGN 5.8): which events are      *)
 (* offered in which state.                                                 *)
 FilterNone(s, e) == TRUE
+(* random long walks: only events the model accepts *)
+FilterValid(s, e) == Step(s, e).st = "ok"
 (* C12: vary keys only; every map value is null *)
 FilterKeys(s, e) == /\ CurRule(s) = "MapValue" => e = EvNull
                     /\ CurRule(s) = "EndDocument" => e = EvED
                     /\ CurRule(s) = "TopLevel" => e \in {EvMap, EvRT("a")}
+
+(* C11: arrays only, inside a list *)
+FilterArrays(s, e) ==
+  /\ CurRule(s) = "List" => e.m \in {"OnArrayBegin", "OnMediaBegin", "OnCustomBegin", "OnEndContainer",
+                                      "OnArray", "OnStringlikeArray", "OnMedia", "OnCustomBinary", "OnCustomText"}
+  /\ CurRule(s) = "List" /\ Cur(s).cur >= 1 => e.m = "OnEndContainer"
+  /\ CurRule(s) = "EndDocument" => e = EvED
 
 (* C10: structure.  One identifier, two keys, no arrays except a whole      *)
 (* string; limits far above usage.                                         *)
@@ -78,19 +87,122 @@ AlphaMarker ==
      EvIdX("OnMarker", "", 0, TRUE), EvIdX("OnReferenceLocal", "a", 1, FALSE),
      EvNan, EvABegin("string"), EvChunk(1, FALSE), EvData(<<99>>) >>
 
-(* C12: keys in every form, inside maps and record types *)
-AlphaKeys ==
+(* C15: every DataEventReceiver method with every argument form that the   *)
+(* validator treats specially (nil big numbers, NaNs in every carrier).    *)
+EvSp(m, dt, sp) == [E0 EXCEPT !.m = m, !.dt = dt, !.sp = sp]
+EvK(m, dt, k)   == [E0 EXCEPT !.m = m, !.dt = dt, !.k = k]
+AlphaAll ==
+  << EvPad, EvCmt, [EvCmt EXCEPT !.multi = TRUE, !.bytes = <<42, 47>>], EvNull,
+     EvBool("OnTrue", "true"), EvBool("OnFalse", "false"), EvBool("OnBoolean", "true"),
+     EvInt("pint", "1"), EvInt("nint", "-1"), EvInt("int", "-1"),
+     EvInt("bigint", "1180591620717411303424"), EvInt("bigint", "-7"), EvNilBig,
+     EvFloat("f64:3ff8000000000000"), EvFloat("f64:8000000000000000"), EvFloat("f64:7ff0000000000000"),
+     EvFloatNan, EvSp("OnFloat", "float", "snan"),
+     EvK("OnBigFloat", "float", "bf:0x.cp+1:53"), EvSp("OnBigFloat", "float", "nil"),
+     EvDFloat("df:15:-1"), EvDFloat("df:-0"), EvSp("OnDecimalFloat", "float", "qnan"),
+     EvSp("OnDecimalFloat", "float", "snan"),
+     EvK("OnBigDecimalFloat", "float", "bdf:15:-1"), EvK("OnBigDecimalFloat", "float", "bdf:-0:0"),
+     EvSp("OnBigDecimalFloat", "float", "nil"), EvSp("OnBigDecimalFloat", "float", "qnan"),
+     EvSp("OnBigDecimalFloat", "float", "snan"),
+     EvUid("000102030405060708090a0b0c0d0e0f"), EvNan, EvSp("OnNan", "nan", "snan"),
+     EvDate("2000-01-01", <<50,48,48,48,45,48,49,45,48,49>>),
+     [EvDate("12:30:01.000000005/A:Europe/Berlin", <<>>) EXCEPT !.bytes = <<>>],
+     EvList, EvMap, EvNode, EvEdge, EvEnd, EvRec("a"), EvMark("a"), EvRef("a"), EvMark("b"),
+     EvStr(<<97, 98>>), EvStrA(<<97>>), EvRid(<<97>>), EvSArr("rref", <<97>>),
+     EvArr("au8", 2, <<1, 2>>), EvArr("au16", 1, <<1, 2>>), EvArr("abit", 3, <<5>>),
+     EvArr("af64", 1, <<0, 0, 0, 0, 0, 0, 248, 127>>),
+     [EvMedia(<<1, 2>>) EXCEPT !.mt = "a/b"], [EvCBin(<<1>>) EXCEPT !.ct = 7],
+     [EvCTxt(<<97>>) EXCEPT !.ct = 8],
+     EvABegin("au8"), EvABegin("string"), [EvMBegin EXCEPT !.mt = "a/b"],
+     [EvCBegin("cbin") EXCEPT !.ct = 9], [EvCBegin("ctxt") EXCEPT !.ct = 10],
+     EvChunk(2, FALSE), EvChunk(1, TRUE), EvData(<<97, 98>>), EvData(<<99>>) >>
+
+(* C12: keys in every form, inside maps and record types.  Integer values   *)
+(* sit on the comparisons of NotifyKey (0, sign, int64/uint64 range ends). *)
+AlphaKeysScalar ==
   << EvBD, EvVer(0), EvED, EvMap, EvEnd, EvRT("a"), EvNull,
+     EvInt("pint", "0"), EvInt("int", "0"), EvInt("bigint", "0"),
      EvInt("pint", "5"), EvInt("int", "5"), EvInt("bigint", "5"),
      EvInt("nint", "-5"), EvInt("int", "-5"), EvInt("bigint", "-5"),
+     EvInt("pint", "9223372036854775807"), EvInt("int", "9223372036854775807"),
      EvInt("pint", "9223372036854775808"), EvInt("bigint", "9223372036854775808"),
      EvInt("nint", "-9223372036854775808"), EvInt("int", "-9223372036854775808"),
+     EvInt("bigint", "-9223372036854775808"),
      EvInt("nint", "-9223372036854775809"), EvInt("bigint", "-9223372036854775809"),
-     EvInt("bigint", "18446744073709551616"),
-     EvStr(<<97>>), EvStrA(<<97>>), EvRid(<<97>>), EvStr(<<98>>),
-     EvABegin("string"), EvChunk(1, FALSE), EvChunk(1, TRUE), EvChunk(0, FALSE), EvData(<<97>>), EvData(<<98>>),
+     EvInt("pint", "18446744073709551615"), EvInt("bigint", "18446744073709551615"),
+     EvInt("nint", "-18446744073709551615"), EvInt("bigint", "-18446744073709551615"),
+     EvInt("bigint", "18446744073709551616"), EvInt("bigint", "-18446744073709551616"),
+     EvInt("bigint", "340282366920938463463374607431768211456"),
      EvBool("OnTrue", "true"), EvBool("OnBoolean", "true"), EvBool("OnFalse", "false"),
+     EvBool("OnBoolean", "false"),
      EvUid("00000000000000000000000000000001"), EvUid("01000000000000000000000000000000"),
      EvDate("2000-01-01", <<50,48,48,48,45,48,49,45,48,49>>),
-     EvStr(<<50,48,48,48,45,48,49,45,48,49>>) >>
+     EvDate("2000-01-02", <<50,48,48,48,45,48,49,45,48,50>>),
+     EvStr(<<50,48,48,48,45,48,49,45,48,49>>), EvStr(<<53>>), EvRid(<<53>>) >>
+
+AlphaKeysStr ==
+  << EvBD, EvVer(0), EvED, EvMap, EvEnd, EvRT("a"), EvNull,
+     EvStr(<<97>>), EvStrA(<<97>>), EvRid(<<97>>), EvArr("rid", 1, <<97>>), EvStr(<<98>>),
+     EvStr(<<97, 98>>), EvStr(<<>>), EvRid(<<>>),
+     EvABegin("string"), EvABegin("rid"),
+     EvChunk(1, FALSE), EvChunk(1, TRUE), EvChunk(0, FALSE), EvChunk(2, FALSE),
+     EvData(<<97>>), EvData(<<98>>), EvData(<<97, 98>>),
+     EvInt("pint", "5") >>
+
+(* C11: chunked and whole arrays.  Bytes: a, the 2-byte char c3 a9, the     *)
+(* 3-byte char e2 82 ac and the 4-byte char f0 9f 98 80 in pieces, ff and  *)
+(* a bare continuation byte (invalid).                                     *)
+ArrayDataPieces ==
+  << <<97>>, <<195>>, <<169>>, <<195, 169>>, <<226>>, <<130>>, <<172>>, <<226, 130>>, <<130, 172>>,
+     <<240, 159>>, <<152, 128>>, <<255>>, <<97, 195>>, <<169, 97>>, <<>>, <<97, 98, 99>> >>
+
+AlphaArraysStr(at) ==
+  << EvEnd, EvED,
+     IF at = "ctxt" THEN EvCBegin("ctxt") ELSE EvABegin(at),
+     EvChunk(0, FALSE), EvChunk(0, TRUE), EvChunk(1, FALSE), EvChunk(1, TRUE), EvChunk(2, FALSE),
+     EvChunk(2, TRUE), EvChunk(3, FALSE), EvChunk(3, TRUE) >>
+  \o [i \in 1..Len(ArrayDataPieces) |-> EvData(ArrayDataPieces[i])]
+
+AlphaArrString == AlphaArraysStr("string")
+AlphaArrRid    == AlphaArraysStr("rid")
+AlphaArrRref   == AlphaArraysStr("rref")
+AlphaArrCtxt   == AlphaArraysStr("ctxt")
+
+(* binary arrays: element widths 1 bit, 1, 2, 8, 16 bytes; media; custom binary *)
+AlphaArrBin ==
+  << EvEnd, EvED, EvABegin("abit"), EvABegin("au8"), EvABegin("ai16"), EvABegin("af64"), EvABegin("auid"),
+     [EvMBegin EXCEPT !.mt = "a/b"], [EvMBegin EXCEPT !.mt = "a", !.mtok = FALSE],
+     [EvCBegin("cbin") EXCEPT !.ct = 1],
+     EvChunk(0, FALSE), EvChunk(0, TRUE), EvChunk(1, FALSE), EvChunk(1, TRUE), EvChunk(2, FALSE),
+     EvChunk(9, FALSE), EvChunk(16, TRUE),
+     EvData(<<>>), EvData(<<1>>), EvData(<<1, 2>>), EvData(<<1, 2, 3, 4, 5, 6, 7, 8>>),
+     EvData(<<1, 2, 3, 4, 5, 6, 7, 8, 9, 10, 11, 12, 13, 14, 15, 16>>), EvData(<<255, 255, 255>>) >>
+
+(* whole (single-event) arrays of every type, good and bad *)
+AlphaArrWhole ==
+  << EvEnd, EvED,
+     EvStr(<<97>>), EvStr(<<195, 169>>), EvStr(<<195>>), EvStr(<<255>>), EvStrA(<<226, 130, 172>>), EvStrA(<<130>>),
+     EvRid(<<97>>), EvRid(<<195>>), EvArr("rid", 1, <<169>>),
+     EvSArr("rref", <<97>>), EvSArr("rref", <<255>>), EvArr("rref", 1, <<255>>), EvArr("rref", 1, <<97>>),
+     [EvCTxt(<<97>>) EXCEPT !.ct = 1], [EvCTxt(<<255>>) EXCEPT !.ct = 1],
+     [EvCBin(<<255>>) EXCEPT !.ct = 1],
+     [EvMedia(<<255>>) EXCEPT !.mt = "a/b"], [EvMedia(<<1>>) EXCEPT !.mt = "a", !.mtok = FALSE],
+     EvArr("au8", 2, <<1, 2>>), EvArr("au8", 3, <<1, 2>>), EvArr("au16", 1, <<1, 2>>), EvArr("au16", 1, <<1>>),
+     EvArr("au16", 2, <<1, 2, 3>>), EvArr("abit", 8, <<1>>), EvArr("abit", 9, <<1>>), EvArr("abit", 9, <<1, 1>>),
+     EvArr("abit", 0, <<>>), EvArr("auid", 1, <<1, 2, 3, 4, 5, 6, 7, 8, 9, 10, 11, 12, 13, 14, 15, 16>>),
+     EvArr("auid", 1, <<1, 2, 3>>), EvArr("af64", 1, <<1, 2, 3, 4, 5, 6, 7, 8>>), EvArr("af32", 1, <<1, 2, 3, 4, 5>>),
+     EvArr("cbin", 1, <<1>>), EvArr("media", 1, <<1>>), EvSArr("ctxt", <<97>>) >>
+(* C14: limits.  Run with small limits so that usage crosses them. *)
+AlphaLimits ==
+  << EvBD, EvVer(0), EvED, EvNull, EvInt("pint", "1"), EvList, EvMap, EvNode, EvEdge, EvEnd,
+     EvIdX("OnRecordType", "a", 1, TRUE), EvIdX("OnRecord", "a", 1, TRUE),
+     EvIdX("OnRecordType", "bb", 2, TRUE), EvIdX("OnRecordType", "ccc", 3, TRUE),
+     EvIdX("OnMarker", "a", 1, TRUE), EvIdX("OnReferenceLocal", "a", 1, TRUE),
+     EvIdX("OnMarker", "bb", 2, TRUE), EvIdX("OnMarker", "ccc", 3, TRUE), EvIdX("OnReferenceLocal", "ccc", 3, TRUE),
+     EvStr(<<97, 98>>), EvStr(<<97, 98, 99>>), EvStr(<<97, 98, 99, 100>>), EvRid(<<97, 98, 99, 100>>),
+     EvArr("au8", 3, <<1, 2, 3>>), EvArr("au16", 2, <<1, 2, 3, 4>>), EvArr("abit", 24, <<1, 2, 3>>),
+     EvArr("abit", 25, <<1, 2, 3, 4>>), [EvMedia(<<1, 2, 3, 4>>) EXCEPT !.mt = "a/b"],
+     EvABegin("au16"), EvABegin("string"), EvABegin("abit"),
+     EvChunk(1, TRUE), EvChunk(1, FALSE), EvChunk(2, FALSE), EvChunk(2, TRUE), EvChunk(17, FALSE), EvChunk(0, FALSE),
+     EvData(<<1>>), EvData(<<1, 2>>), EvData(<<1, 2, 3>>), EvData(<<1, 2, 3, 4>>) >>
 =============================================================================
